@@ -491,6 +491,48 @@ def feecross(rng):
     return {"cfg": _cfg(rng, 2), "ops": ops}
 
 
+def slots(rng):
+    """One side fills the other's HTLC slots (max_accepted_htlcs, 50 in the test configuration) up to and past
+    the limit, in one commitment dance or several, then both sides keep sending (C01: limits exact also when
+    the binding limit is the number of HTLCs; no protocol error on honest traffic)."""
+    x = rng.choice([0, 1])
+    y = 1 - x
+    value = 1000000
+    cfg = {"nodes": 2, "chan_type": rng.choice(TYPES), "value": value, "push": value * 500, "feerate": 253}
+    ops = []
+    npay = 0
+    total = rng.choice([47, 48, 49, 50, 51, 52])
+    while npay < total:
+        burst = min(total - npay, rng.choice([1, 5, 12, 25, 50]))
+        for _ in range(burst):
+            ops.append({"op": "send", "from": x, "to": y, "amt": rng.choice(["justabove", "justabove", "dust", "min"])})
+            npay += 1
+        r = rng.random()
+        if r < 0.5:
+            ops.append({"op": "deliver_all"})
+        elif r < 0.8:
+            ops += _deliveries(rng, [(x, y), (y, x)], rng.randrange(1, 6))
+    for _ in range(rng.randrange(1, 4)):
+        a, b = rng.choice([(x, y), (x, y), (y, x)])
+        ops.append({"op": "send", "from": a, "to": b, "amt": rng.choice(["limit", "justabove", "min", "big"])})
+        npay += 1
+    ops.append({"op": "deliver_all"})
+    order = list(range(npay))
+    rng.shuffle(order)
+    for k in order[:rng.randrange(1, 8)]:
+        ops.append({"op": "claim" if rng.random() < 0.6 else "fail", "pay": k})
+    ops.append({"op": "deliver_all"})
+    ops.append({"op": "send", "from": x, "to": y, "amt": rng.choice(["limit", "justabove"])})
+    npay += 1
+    ops.append({"op": "deliver_all"})
+    for k in range(npay):
+        ops.append({"op": "claim" if rng.random() < 0.6 else "fail", "pay": k})
+        if k % 10 == 9:
+            ops.append({"op": "deliver_all"})
+    ops += [{"op": "reconnect", "a": 0, "b": 1}, {"op": "deliver_all"}, {"op": "proj", "final": True}]
+    return {"cfg": cfg, "ops": ops}
+
+
 def stalehold(rng):
     """A - B - C.  A forward (or B's own payment) waits in the holding cell of B-C (B is waiting for C's
     revoke_and_ack) when B's manager is written; B-C's monitor then moves on without freeing the holding
@@ -585,7 +627,7 @@ def evhold(rng):
     return {"cfg": _cfg(rng, n), "ops": ops}
 
 
-FAMILIES = {"asynccross": asynccross, "blockedjump": blockedjump, "feecross": feecross, "opendisc": opendisc, "chainsettle": chainsettle, "crosslimit": crosslimit, "evhold": evhold, "failwin": failwin, "fanin": fanin, "inflight": inflight, "holdcell": holdcell, "stalehold": stalehold}
+FAMILIES = {"slots": slots, "asynccross": asynccross, "blockedjump": blockedjump, "feecross": feecross, "opendisc": opendisc, "chainsettle": chainsettle, "crosslimit": crosslimit, "evhold": evhold, "failwin": failwin, "fanin": fanin, "inflight": inflight, "holdcell": holdcell, "stalehold": stalehold}
 
 
 def make(rng, family, count):
